@@ -177,6 +177,13 @@ func (ArchLinux) ConventionalExtension() string {
 }
 
 // createFilesInTar adds the files described in the given info to the given tar writer
+// mtreeTime is the second archive/tar stores for a modification time: the tar
+// writer rounds to the nearest second, so .MTREE has to do the same or entries
+// whose source has a sub-second mtime of .5 or more are listed one second early.
+func mtreeTime(t time.Time) int64 {
+	return t.Round(time.Second).Unix()
+}
+
 func createFilesInTar(info *nfpm.Info, tw *tar.Writer) ([]MtreeEntry, int64, error) {
 	entries := make([]MtreeEntry, 0, len(info.Contents))
 	var totalSize int64
@@ -188,7 +195,7 @@ func createFilesInTar(info *nfpm.Info, tw *tar.Writer) ([]MtreeEntry, int64, err
 		case files.TypeDir, files.TypeImplicitDir:
 			entries = append(entries, MtreeEntry{
 				Destination: content.Destination,
-				Time:        content.ModTime().Unix(),
+				Time:        mtreeTime(content.ModTime()),
 				Mode:        int64(content.Mode()),
 				Type:        files.TypeDir,
 			})
@@ -216,7 +223,7 @@ func createFilesInTar(info *nfpm.Info, tw *tar.Writer) ([]MtreeEntry, int64, err
 			entries = append(entries, MtreeEntry{
 				LinkSource:  content.Source,
 				Destination: content.Destination,
-				Time:        content.ModTime().Unix(),
+				Time:        mtreeTime(content.ModTime()),
 				Mode:        0o777,
 				Type:        content.Type,
 			})
@@ -266,7 +273,7 @@ func createFilesInTar(info *nfpm.Info, tw *tar.Writer) ([]MtreeEntry, int64, err
 
 			entries = append(entries, MtreeEntry{
 				Destination: content.Destination,
-				Time:        content.ModTime().Unix(),
+				Time:        mtreeTime(content.ModTime()),
 				Mode:        int64(content.Mode()),
 				Size:        content.Size(),
 				Type:        content.Type,
@@ -406,7 +413,7 @@ func createPkginfo(info *nfpm.Info, tw *tar.Writer, totalSize int64) (*MtreeEntr
 
 	return &MtreeEntry{
 		Destination: ".PKGINFO",
-		Time:        modtime.Get(info.MTime).Unix(),
+		Time:        mtreeTime(modtime.Get(info.MTime)),
 		Mode:        0o644,
 		Size:        int64(size),
 		Type:        files.TypeFile,
